@@ -26,6 +26,7 @@ const (
 	opConst opKind = iota
 	opInput
 	opAdd
+	opAddA
 	opSub
 	opMul
 	opShl
@@ -140,6 +141,13 @@ type limbTr struct {
 	topPtrs  []string
 	written  map[string]map[string]bool
 	cutNames map[string]bool
+	// side obligations and traces
+	ncSet     map[string]bool   // assignment targets whose += is a named no-overflow side obligation
+	ncNow     bool
+	traceSet  map[string]bool   // local variables whose successive definitions are recorded
+	traces    map[string][]int  // raw SSA ids
+	snapAfter string            // record the receiver's fields after the (top-level) call of this method
+	cutAfter  string            // phase cut: after the (top-level) call of this method the receiver's fields become fresh inputs
 }
 
 type scope struct {
@@ -226,6 +234,9 @@ func (t *limbTr) binop(op token.Token, x, y *sv, pos token.Pos) *sv {
 	}
 	switch op {
 	case token.ADD:
+		if t.ncNow {
+			return varSV(t.emit(ssaOp{kind: opAddA, a: t.toVar(x, pos), b: t.toVar(y, pos), q: -1}))
+		}
 		return varSV(t.emit(ssaOp{kind: opAdd, a: t.toVar(x, pos), b: t.toVar(y, pos), q: -1}))
 	case token.SUB:
 		return varSV(t.emit(ssaOp{kind: opSub, a: t.toVar(x, pos), b: t.toVar(y, pos), q: -1}))
@@ -255,7 +266,7 @@ func (t *limbTr) binop(op token.Token, x, y *sv, pos token.Pos) *sv {
 		if k == 0 {
 			return x
 		}
-		return varSV(t.emit(ssaOp{kind: opShr, a: t.toVar(x, pos), k: k, q: -1}))
+		return varSV(t.shr(t.toVar(x, pos), k))
 	case token.AND:
 		if x.cst != nil {
 			x, y = y, x
@@ -273,10 +284,19 @@ func (t *limbTr) binop(op token.Token, x, y *sv, pos token.Pos) *sv {
 	return nil
 }
 
+// shr emits a >> k; nested shifts are normalised: (a >> k1) >> k2 = a >> (k1+k2)
+// (floor division composes), so that the quotient of one digit is the operand of the next.
+func (t *limbTr) shr(a, k int) int {
+	if t.ops[a].kind == opShr {
+		return t.emit(ssaOp{kind: opShr, a: t.ops[a].a, k: t.ops[a].k + k, q: -1})
+	}
+	return t.emit(ssaOp{kind: opShr, a: a, k: k, q: -1})
+}
+
 func (t *limbTr) low(a, k int) *sv {
 	// the quotient a >> k is emitted (or found by CSE) first so that the checker can link the two:
 	// a & (2^k-1) = a - 2^k·(a >> k)
-	q := t.emit(ssaOp{kind: opShr, a: a, k: k, q: -1})
+	q := t.shr(a, k)
 	return varSV(t.emit(ssaOp{kind: opLow, a: a, k: k, q: q}))
 }
 
@@ -605,8 +625,8 @@ func (t *limbTr) assign(sc *scope, lhs ast.Expr, val *sv, define bool) {
 		if l.Name == "_" {
 			return
 		}
-		if t.cutNames[l.Name] && sc.top && val.isVar {
-			// phase cut: the variable becomes a fresh input of the next phase (see cuts)
+		if sc.top && t.traceSet[l.Name] && (val.isVar || val.cst != nil) {
+			t.traces[l.Name] = append(t.traces[l.Name], t.toVar(val, lhs.Pos()))
 		}
 		if old, ok := sc.vars[l.Name]; ok && !define && old.fields != nil && val.fields != nil {
 			// struct assignment into an existing struct variable: copy fields in place (pointer identity preserved)
@@ -655,7 +675,13 @@ func (t *limbTr) stmt(sc *scope, s ast.Stmt) {
 	case *ast.AssignStmt:
 		if op, ok := assignOps[x.Tok]; ok {
 			cur := t.eval(sc, x.Lhs[0])
-			t.assign(sc, x.Lhs[0], t.binop(op, cur, t.eval(sc, x.Rhs[0]), x.Pos()), false)
+			rhs := t.eval(sc, x.Rhs[0])
+			if op == token.ADD && sc.top && t.ncSet[limbExprText(x.Lhs[0])] {
+				t.ncNow = true
+			}
+			val := t.binop(op, cur, rhs, x.Pos())
+			t.ncNow = false
+			t.assign(sc, x.Lhs[0], val, false)
 			return
 		}
 		if x.Tok != token.ASSIGN && x.Tok != token.DEFINE {
@@ -697,6 +723,20 @@ func (t *limbTr) stmt(sc *scope, s ast.Stmt) {
 			t.fail(x.Pos(), "unsupported expression statement")
 		}
 		t.call(sc, c)
+		if sel, ok := c.Fun.(*ast.SelectorExpr); ok && sc.top && t.cutAfter != "" && sel.Sel.Name == t.cutAfter {
+			recv := t.eval(sc, sel.X)
+			tn := t.structNameOf(recv)
+			for _, f := range t.pkg.structs[tn] {
+				recv.fields[f] = t.input("cut." + f)
+			}
+		}
+		if sel, ok := c.Fun.(*ast.SelectorExpr); ok && sc.top && t.snapAfter != "" && sel.Sel.Name == t.snapAfter {
+			recv := t.eval(sc, sel.X)
+			tn := t.structNameOf(recv)
+			for _, f := range t.pkg.structs[tn] {
+				t.traces["snap"] = append(t.traces["snap"], t.toVar(recv.fields[f], x.Pos()))
+			}
+		}
 	case *ast.ReturnStmt:
 		for _, r := range x.Results {
 			sc.rets = append(sc.rets, t.eval(sc, r))
@@ -801,7 +841,11 @@ func (t *limbTr) paramValue(name string, ty ast.Expr, pos token.Pos) *sv {
 
 // limbSpec configures the translation of one function.
 type limbSpec struct {
-	fn      string // "Element.Add" or "scMulAdd"
+	nc        []string // targets whose `+=` is a side obligation (e.g. "v.l3")
+	trace     []string // local variables whose successive definitions are recorded
+	snapAfter string   // method name: record the receiver fields right after this call
+	cutAfter  string   // method name: phase cut after this call (receiver fields become fresh inputs)
+	fn        string   // "Element.Add" or "scMulAdd"
 	lean    string // lean definition name
 	signed  bool
 	slices  map[string]int // []byte parameters with their asserted length (from the len guard)
@@ -816,6 +860,19 @@ type limbResult struct {
 	outNames []string
 	outs     []int
 	hazards  []string
+	traces   map[string][]int
+}
+
+func limbExprText(e ast.Expr) string {
+	switch x := e.(type) {
+	case *ast.Ident:
+		return x.Name
+	case *ast.SelectorExpr:
+		return limbExprText(x.X) + "." + x.Sel.Name
+	case *ast.ParenExpr:
+		return limbExprText(x.X)
+	}
+	return "?"
 }
 
 func translateLimb(pkg *limbPkg, spec limbSpec) (res *limbResult, err error) {
@@ -832,7 +889,14 @@ func translateLimb(pkg *limbPkg, spec limbSpec) (res *limbResult, err error) {
 	if !ok {
 		return nil, fmt.Errorf("function %s not found", spec.fn)
 	}
-	t := &limbTr{pkg: pkg, signed: spec.signed, cse: map[string]int{}, written: map[string]map[string]bool{}}
+	t := &limbTr{pkg: pkg, signed: spec.signed, cse: map[string]int{}, written: map[string]map[string]bool{},
+		ncSet: map[string]bool{}, traceSet: map[string]bool{}, traces: map[string][]int{}, snapAfter: spec.snapAfter, cutAfter: spec.cutAfter}
+	for _, n := range spec.nc {
+		t.ncSet[n] = true
+	}
+	for _, n := range spec.trace {
+		t.traceSet[n] = true
+	}
 	sc := &scope{vars: map[string]*sv{}, top: true}
 	type pinfo struct {
 		name string
@@ -938,7 +1002,7 @@ func translateLimb(pkg *limbPkg, spec limbSpec) (res *limbResult, err error) {
 		op := t.ops[i]
 		switch op.kind {
 		case opConst, opInput:
-		case opAdd, opSub, opMul, opOrr, opMulHi:
+		case opAdd, opAddA, opSub, opMul, opOrr, opMulHi:
 			mark(op.a)
 			mark(op.b)
 		case opMulLo:
@@ -963,6 +1027,11 @@ func translateLimb(pkg *limbPkg, spec limbSpec) (res *limbResult, err error) {
 	}
 	for _, o := range outs {
 		mark(o)
+	}
+	for _, ids := range t.traces {
+		for _, id := range ids {
+			mark(id)
+		}
 	}
 	// inputs: every declared input stays (stable numbering by declaration order), live or not
 	var inIdx []int
@@ -1004,13 +1073,19 @@ func translateLimb(pkg *limbPkg, spec limbSpec) (res *limbResult, err error) {
 	for _, o := range outs {
 		res.outs = append(res.outs, rn(o))
 	}
+	res.traces = map[string][]int{}
+	for name, ids := range t.traces {
+		for _, id := range ids {
+			res.traces[name] = append(res.traces[name], rn(id))
+		}
+	}
 	return res, nil
 }
 
 // rn0 renumbers the operand fields that the op kind actually uses
 func rn0(rn func(int) int, op ssaOp, which int) int {
 	uses := map[opKind][4]bool{
-		opConst: {}, opAdd: {true, true}, opSub: {true, true}, opMul: {true, true}, opOrr: {true, true},
+		opConst: {}, opAdd: {true, true}, opAddA: {true, true}, opSub: {true, true}, opMul: {true, true}, opOrr: {true, true},
 		opMulHi: {true, true}, opMulLo: {true, true, false, true}, opShl: {true, false, false, true},
 		opShr: {true}, opLow: {true, false, false, true}, opCarry: {true, true, true}, opBorrow: {true, true, true},
 		opAdd64: {true, true, true, true}, opSub64: {true, true, true, true},
@@ -1044,6 +1119,8 @@ func (r *limbResult) leanOps() []string {
 			out[i] = ".const " + leanInt(op.cst)
 		case opAdd:
 			out[i] = fmt.Sprintf(".add %d %d", op.a, op.b)
+		case opAddA:
+			out[i] = fmt.Sprintf(".addA %d %d", op.a, op.b)
 		case opSub:
 			out[i] = fmt.Sprintf(".sub %d %d", op.a, op.b)
 		case opMul:
@@ -1110,5 +1187,14 @@ func (r *limbResult) emitLean(b *strings.Builder) {
 		r.spec.lean, r.spec.signed, r.nIn, strings.Join(parts, " ++ "), intList(r.outs))
 	fmt.Fprintf(b, "def %s_inputs : List String := %s\n", r.spec.lean, quoteList(r.inNames))
 	fmt.Fprintf(b, "def %s_outputs : List String := %s\n", r.spec.lean, quoteList(r.outNames))
-	fmt.Fprintf(b, "def %s_hazards : List String := %s\n\n", r.spec.lean, quoteList(r.hazards))
+	fmt.Fprintf(b, "def %s_hazards : List String := %s\n", r.spec.lean, quoteList(r.hazards))
+	var tn []string
+	for name := range r.traces {
+		tn = append(tn, name)
+	}
+	sort.Strings(tn)
+	for _, name := range tn {
+		fmt.Fprintf(b, "def %s_trace_%s : List Nat := %s\n", r.spec.lean, name, intList(r.traces[name]))
+	}
+	b.WriteString("\n")
 }
